@@ -482,6 +482,17 @@ func (ex *Exec) callContractVars(c *Contract, params []*types.Var, sig *types.Si
 		if fr != nil {
 			lbl = fr.label(lbl)
 		}
+		if tf := ex.topFrame; tf != nil && tf.c != nil && tf.c.TrustPre != nil {
+			short := c.Name
+			if i := strings.LastIndex(short, "."); i >= 0 {
+				short = short[i+1:]
+			}
+			if tp := tf.c.TrustPre[short]; tp != nil && tp[cl.Label] {
+				ex.assume(imp(r, g))
+				ex.used["ASSUMED precondition of "+c.Name+" ["+cl.Label+"] in "+ex.unit.Name+": "+tf.c.TrustPreWhy[short]] = true
+				continue
+			}
+		}
 		ex.oblige(lbl, "requires-at-call", cl.Props, imp(r, g), cl.Pos, cl.Text)
 	}
 	old := st.clone()
@@ -509,7 +520,13 @@ func (ex *Exec) callContractVars(c *Contract, params []*types.Var, sig *types.Si
 		}
 	}
 	for _, cl := range c.Ensures {
-		g := ex.evalCallClause(c, cl, env, st, old)
+		g, ok := ex.tryCallClause(c, cl, env, st, old)
+		if !ok {
+			// the clause speaks about the callee's own locals or auxiliary variables: it is proved for the callee but
+			// gives the caller nothing (knowing less is sound)
+			ex.used["postcondition "+c.Name+"["+cl.Label+"] mentions callee-local state: not assumed at call sites"] = true
+			continue
+		}
 		ex.assume(imp(r, g))
 	}
 	if ex.pure == 0 {
@@ -535,6 +552,27 @@ func (ex *Exec) callContractVars(c *Contract, params []*types.Var, sig *types.Si
 		return Val{T: res}
 	}
 	return tupleVal(res, vs)
+}
+
+// tryCallClause evaluates a callee clause in the caller's environment; ok=false when it names something that only
+// exists inside the callee.
+func (ex *Exec) tryCallClause(c *Contract, cl *Clause, env map[string]Val, st, old *State) (g string, ok bool) {
+	defer func() {
+		if r := recover(); r != nil {
+			if ue, isU := r.(unsupportedErr); isU && strings.Contains(ue.msg, "unknown identifier") {
+				g, ok = "", false
+				return
+			}
+			if e, isE := r.(error); isE {
+				if ue, isU := e.(unsupportedErr); isU && strings.Contains(ue.msg, "unknown identifier") {
+					g, ok = "", false
+					return
+				}
+			}
+			panic(r)
+		}
+	}()
+	return ex.evalCallClause(c, cl, env, st, old), true
 }
 
 // historyCounterKeys lists the ghost keys of the history counters (nspawned, ncalls) named in c's postconditions.
